@@ -85,6 +85,7 @@ def _(h, s, cur):
         z3.ForAll([z3.Int("any_scope")], h.f(S.C, "_tasks", z3.Int("any_scope")) != h.f(G, "_tasks", s), patterns=[h.f(S.C, "_tasks", z3.Int("any_scope"))]),  # ... nor any scope's (created by the group's __init__, never handed out)
         z3.Implies(fut(h, s) != 0, z3.And(fut(h, s) > 0, z3.Select(al, fut(h, s)))),
         excs(h, s).forall(lambda i, e: z3.And(e > 0, z3.Select(al, e))),  # collected exceptions are objects
+        z3.ForAll([z3.Int("any_task")], z3.Implies(tasks(h, s).has(z3.Int("any_task")), z3.And(z3.Int("any_task") > 0, z3.Select(al, z3.Int("any_task")))), patterns=[tasks(h, s).has(z3.Int("any_task"))]),  # children are task objects
         *[t for _, t in S.SCOPE.assumed_terms(h, c, cur)],
     )
 
@@ -662,3 +663,560 @@ def _task_exception_recording(ip, t):
 lib.MODEL_METHODS["Task"]["exception"] = _task_exception_recording
 
 UNITS = [InitUnit, AEnterUnit, AExitUnit, TaskDoneUnit]
+
+
+# =============================================================================== TaskHandle (anyio/_core/_tasks.py)
+
+from specs import c08_checkpoints as K  # noqa: E402  (registers class "TaskHandle" with its finished event; Event contracts)
+from specs import c11_condition as E  # noqa: E402
+
+TH = "TaskHandle"
+CLASSES[TH].fields.update({"_cancel_scope": CS, "_exception": OBJ, "_return_value": OBJ, "_start_value": OBJ, "_name": lib.STR})
+THR = RefT(TH)
+HANDLE = ClassSpec(TH)
+ST_PENDING, ST_FINISHED, ST_CANCELLING, ST_CANCELLED, ST_FAILED = 1, 2, 3, 4, 5  # Enum auto() values in declaration order
+
+
+def h_event(h, s):
+    return h.f(TH, "_finished_event", s)
+
+
+def h_scope(h, s):
+    return h.f(TH, "_cancel_scope", s)
+
+
+def h_finished(h, s):
+    return E.evflag(h, h_event(h, s))
+
+
+def h_exc(h, s):
+    return h.f(TH, "_exception", s)
+
+
+@HANDLE.assume("wf")
+def _(h, s, cur):
+    al = h.arr("$", "alloc")
+    c = h_scope(h, s)
+    return z3.And(s > 0, z3.Select(al, s), h_event(h, s) > 0, z3.Select(al, h_event(h, s)), E.embedded(h), c > 0, z3.Implies(h_exc(h, s) != 0, z3.And(h_exc(h, s) > 0, z3.Select(al, h_exc(h, s)))), *[t for _, t in S.SCOPE.assumed_terms(h, c, cur)])
+
+
+def status_spec(h, s):
+    """the status as a total function of (finished, cancel requested, exception class) -- the table of the property"""
+    fin = h_finished(h, s)
+    exc = h_exc(h, s)
+    return z3.If(
+        z3.Not(fin),
+        z3.If(S.cc(h, h_scope(h, s)), ST_CANCELLING, ST_PENDING),
+        z3.If(exc == 0, ST_FINISHED, z3.If(ekind(h, exc) == CANCEL_KIND, ST_CANCELLED, ST_FAILED)),
+    )
+
+
+class StatusNS:
+    """TaskHandle.Status (an Enum): members are modelled by their auto() values"""
+
+    values = {"PENDING": ST_PENDING, "FINISHED": ST_FINISHED, "CANCELLING": ST_CANCELLING, "CANCELLED": ST_CANCELLED, "FAILED": ST_FAILED}
+
+
+class HandleUnit(TGBase, MethodUnit):
+    props = ("C01",)
+    spec = HANDLE
+    trusted = ("E1", "E7", "A-event-private", "A-scope-contracts", "A-user-coro")
+    contracts = dict(TGBase.contracts)
+    contracts.update(E.EVENT_CONTRACTS)
+
+    def props_of(self, name):
+        return {"C01"}
+
+    def __init__(self):
+        super().__init__()
+        g = self.tg_globals()
+        g.update({"get_cancelled_exc_class": Builtin("get_cancelled_exc_class", lambda ip: ClassVal("CancelledError", pycls=lib.exc_classes()["CancelledError"])), "asyncio": E._asyncio_ns(), "TaskHandle": ClassVal("TaskHandle", info=CLASSES[TH])})
+        self.globals = g
+
+    def class_getattr(self, ip, cv, attr):
+        if cv.name == "TaskHandle" and attr == "Status":
+            return StatusNS()
+        return NotImplemented
+
+    def model_getattr(self, ip, obj, attr):
+        if isinstance(obj, StatusNS) and attr in StatusNS.values:
+            return StatusNS.values[attr]
+        return self.tg_model_getattr(ip, obj, attr)
+
+    def construct_exception(self, ip, pycls, args):
+        return NotImplemented
+
+    def isinstance(self, ip, x, cls):
+        # an exception object read back from a field of the handle
+        if isinstance(x, Sym) and x.ty is OBJ and isinstance(cls, ClassVal) and cls.pycls is not None and issubclass(cls.pycls, BaseException):
+            r = lib.exc_isinstance(ip, lib.exc_from_ref(ip, x.t), (cls.pycls,))
+            return r if isinstance(r, bool) else Sym(r, BOOL)
+        return NotImplemented
+
+    def guarantee(self, seg, now, s, cur):
+        return []
+
+    def resume_assumptions(self, ip, what, payload):
+        st, s, cur = ip.st, self.self_val.t, ip.ctx.cur.t
+        h, b = H(st), self.before
+        for n, t in self.spec.assumed_terms(h, s, cur):
+            st.assume(t)
+        # the handle's own fields are written by its wrapper coroutine only (this call)
+        st.assume(z3.And(*[h.f(TH, n, s) == b.f(TH, n, s) for n in ("_finished_event", "_cancel_scope", "_exception", "_return_value")]))
+        st.assume(z3.Implies(E.evflag(b, h_event(b, s)), E.evflag(h, h_event(h, s))))
+        st.assume(z3.Implies(z3.Not(E.evflag(b, h_event(b, s))), z3.Not(E.evflag(h, h_event(h, s)))))  # only _run_coro sets it
+        x = z3.Int(st.uniq("x"))
+        st.assume(z3.ForAll([x], z3.Implies(S.host(b, x) == cur, z3.And(S.host(h, x) == cur, S.active(h, x) == S.active(b, x), S.parent(h, x) == S.parent(b, x))), patterns=[S.host(h, x)]))
+        st.assume(z3.And(S.tstate_of(h, cur) == S.tstate_of(b, cur), h.f("TaskState", "cancel_scope", S.tstate_of(b, cur)) == b.f("TaskState", "cancel_scope", S.tstate_of(b, cur))))
+        st.assume(z3.ForAll([x], z3.Implies(S.cc(b, x), S.cc(h, x)), patterns=[S.cc(h, x)]))
+        c = h_scope(h, s)
+        for t in (c, S.parent(h, c), z3.IntVal(0)):
+            st.assume(S.eff_unfold(h, t))
+
+
+USER_CORO = Contract(
+    "user coroutine",
+    requires=lambda h, a: [],
+    cases=[
+        Case("returned", when=lambda pre, a: True, ret_ty=OBJ, ensures=lambda pre, post, a, ret: []),
+        Case("raised", when=lambda pre, a: True, raises="Exception", ensures=lambda pre, post, a, ret: []),
+        Case("cancelled", when=lambda pre, a: True, raises="CancelledError", ensures=lambda pre, post, a, ret: []),
+    ],
+    bind=lambda ip, args, kwargs: types.SimpleNamespace(self=z3.IntVal(0), cur=ip.ctx.cur.t),
+    suspends=True,
+)
+
+
+class RunCoroUnit(HandleUnit):
+    """TaskHandle._run_coro: the wrapper every child task runs.  The user's coroutine is an opaque suspending callee
+    (returns a value, raises, or is cancelled)."""
+
+    method = "_run_coro"
+    contract = None
+    split = (2, 3)
+
+    def assume_state(self, ip):
+        super().assume_state(ip)
+        h = H(ip.st)
+        s = self.self_val.t
+        # a fresh handle as __init__ leaves it; the task runs its wrapper exactly once
+        ip.st.assume(z3.And(z3.Not(h_finished(h, s)), h_exc(h, s) == 0, z3.Not(S.active(h, h_scope(h, s))), S.parent(h, h_scope(h, s)) == 0, S.host(h, h_scope(h, s)) == 0, S.thandle(h, h_scope(h, s)) == 0, S.pending_(h, h_scope(h, s)) == 0))
+        self.set_at = None
+
+    def model_getattr(self, ip, obj, attr):
+        return super().model_getattr(ip, obj, attr)
+
+    def do_await_user(self, ip):
+        return USER_CORO.apply(ip, None, [], {})
+
+    def get_coro(self, ip):
+        from segvc.interp import AwaitableVal
+
+        return AwaitableVal("contract", lambda: self.do_await_user(ip))
+
+    def after_suspending_call(self, ip, contract, a, case, exc, ret=None):
+        if contract is USER_CORO:
+            self.outcome = (case.name, exc, ret)
+
+    def on_entry(self, ip, pre, a):
+        self.outcome = None
+
+    def contract_for(self, qualname, ctx):
+        if qualname == "Event.set":
+            unit = self
+            inner = E.EV_SET
+
+            class Wrap:
+                suspends = False
+
+                def apply(self_, ip, f, args, kwargs):
+                    r = inner.apply(ip, f, args, kwargs)
+                    unit.set_at = (ip.ctx.flags["suspended"], H(ip.st, ip.st.snapshot()))
+                    return r
+
+            return Wrap()
+        return super().contract_for(qualname, ctx)
+
+    def on_exit(self, ip, pre, a, exc, ret):
+        s = a.self
+        post = H(ip.st)
+        nm = "TaskHandle._run_coro"
+        if self.outcome is None:
+            # the wrapper did not get as far as running the coroutine (its scope refused to be entered)
+            ip.ctx.oblige(f"{nm}/post:coroutine_not_run_only_if_the_scope_was_refused", z3.BoolVal(exc is not None and exc.pycls is RuntimeError), "post")
+            return
+        kind, uexc, uret = self.outcome
+        ip.ctx.oblige(f"{nm}/post:finished_event_is_set_on_every_exit", h_finished(post, s), "post")
+        ip.ctx.oblige(f"{nm}/post:no_suspension_point_after_the_finished_event_is_set", z3.BoolVal(self.set_at is not None and self.set_at[0] == ip.ctx.flags["suspended"]), "post")
+        if self.set_at is not None:
+            at = self.set_at[1]
+            if kind == "returned":
+                ip.ctx.oblige(f"{nm}/post:return_value_recorded_before_completion_is_signalled", z3.And(at.f(TH, "_return_value", s) == uret.t, h_exc(at, s) == 0), "post")
+            else:
+                ip.ctx.oblige(f"{nm}/post:exception_recorded_before_completion_is_signalled", h_exc(at, s) == lib.exc_ref(ip, uexc), "post")
+        if kind == "returned":
+            ip.ctx.oblige(f"{nm}/post:status_is_finished_with_the_coroutines_value", z3.And(status_spec(post, s) == ST_FINISHED, post.f(TH, "_return_value", s) == uret.t), "post")
+        elif kind == "raised":
+            ip.ctx.oblige(f"{nm}/post:status_is_failed_with_the_coroutines_exception", z3.And(status_spec(post, s) == ST_FAILED, h_exc(post, s) == lib.exc_ref(ip, uexc)), "post")
+        else:
+            ip.ctx.oblige(f"{nm}/post:status_is_cancelled", z3.And(status_spec(post, s) == ST_CANCELLED, h_exc(post, s) == lib.exc_ref(ip, uexc)), "post")
+
+
+def _run_coro_getattr(self, ip, obj, attr):
+    if isinstance(obj, Sym) and obj.ty is THR and attr == "_coro" and isinstance(self, RunCoroUnit):
+        return self.get_coro(ip)
+    return HandleUnit.model_getattr(self, ip, obj, attr)
+
+
+class StatusUnit(HandleUnit):
+    method = "status"
+    contract = None
+
+    def on_exit(self, ip, pre, a, exc, ret):
+        ok = exc is None and ret is not None
+        ip.ctx.oblige("TaskHandle.status/post:returns_a_status", z3.BoolVal(ok), "post")
+        if ok:
+            ip.ctx.oblige("TaskHandle.status/post:is_the_function_of_finished_cancel_requested_and_exception_class", ip.term(ret, INT) == status_spec(pre, a.self), "post")
+
+
+STATUS_PROP = Contract("TaskHandle.status", requires=lambda h, a: [], cases=[Case("pure", when=lambda pre, a: True, ret_ty=INT, ensures=lambda pre, post, a, ret: [("spec", ret == status_spec(pre, a.self))])], modifies=set(), bind=lambda ip, args, kwargs: types.SimpleNamespace(self=args[0].t, cur=ip.ctx.cur.t))
+
+
+class ExceptionPropUnit(HandleUnit):
+    method = "exception"
+    contract = None
+    contracts = dict(HandleUnit.contracts, **{"TaskHandle.status": STATUS_PROP})
+
+    def on_exit(self, ip, pre, a, exc, ret):
+        s = a.self
+        st_ = status_spec(pre, s)
+        nm = "TaskHandle.exception"
+        if exc is None:
+            ip.ctx.oblige(f"{nm}/post:returns_only_for_finished_or_failed", z3.Or(st_ == ST_FINISHED, st_ == ST_FAILED), "post")
+            ip.ctx.oblige(f"{nm}/post:none_iff_finished_else_the_recorded_exception", z3.If(st_ == ST_FINISHED, z3.BoolVal(ret is None), z3.BoolVal(ret is not None) if ret is None else ip.term(ret, OBJ) == h_exc(pre, s)), "post")
+        else:
+            name = exc.pycls.__name__ if exc.pycls else "?"
+            want = {"TaskNotFinished": st_ == ST_PENDING, "TaskCancelled": z3.Or(st_ == ST_CANCELLING, st_ == ST_CANCELLED)}.get(name, z3.BoolVal(False))
+            ip.ctx.oblige(f"{nm}/post:raises_exactly_per_status[{name}]", want, "post")
+
+
+class ReturnValuePropUnit(HandleUnit):
+    method = "return_value"
+    contract = None
+    contracts = dict(HandleUnit.contracts, **{"TaskHandle.status": STATUS_PROP})
+
+    def on_exit(self, ip, pre, a, exc, ret):
+        s = a.self
+        st_ = status_spec(pre, s)
+        nm = "TaskHandle.return_value"
+        if exc is None:
+            ip.ctx.oblige(f"{nm}/post:returns_the_recorded_value_only_when_finished", z3.And(st_ == ST_FINISHED, ip.term(ret, OBJ) == pre.f(TH, "_return_value", s)), "post")
+        else:
+            name = exc.pycls.__name__ if exc.pycls else "?"
+            want = {"TaskNotFinished": st_ == ST_PENDING, "TaskCancelled": z3.Or(st_ == ST_CANCELLING, st_ == ST_CANCELLED), "TaskFailed": st_ == ST_FAILED}.get(name, z3.BoolVal(False))
+            ip.ctx.oblige(f"{nm}/post:raises_exactly_per_status[{name}]", want, "post")
+
+
+class HandleCancelUnit(HandleUnit):
+    method = "cancel"
+    contract = None
+
+    def on_exit(self, ip, pre, a, exc, ret):
+        s = a.self
+        post = H(ip.st)
+        ip.ctx.oblige("TaskHandle.cancel/post:requests_cancellation_iff_not_finished", z3.And(z3.BoolVal(exc is None), S.cc(post, h_scope(pre, s)) == z3.Or(S.cc(pre, h_scope(pre, s)), z3.Not(h_finished(pre, s))), h_finished(post, s) == h_finished(pre, s)), "post")
+
+
+RunCoroUnit.model_getattr = _run_coro_getattr
+UNITS += [RunCoroUnit, StatusUnit, ExceptionPropUnit, ReturnValuePropUnit, HandleCancelUnit]
+
+
+# =============================================================================== create_task / _spawn, start, started
+
+register_class("TaskStatus", {"_future": FUT, "_parent_id": INT}, source=(ASYNCIO, "_AsyncioTaskStatus"))
+TSTAT = RefT("TaskStatus")
+
+
+def new_handle(ip, coro=None, name=None):
+    """TaskHandle(coro, name): a fresh, unfinished handle with its own inactive, uncancelled scope (the constructor
+    itself -- name formatting, front-end dispatch of CancelScope()/Event() -- is not under contract: A-dispatch)"""
+    st = ip.st
+    hd = Sym(st.alloc(TH), THR)
+    ev = E._new_event(ip)
+    sc = ip.construct(CLASSES[S.C], [], {})
+    st.put(TH, "_finished_event", hd.t, ev.t)
+    st.put(TH, "_cancel_scope", hd.t, sc.t)
+    st.put(TH, "_exception", hd.t, z3.IntVal(0))
+    st.put(TH, "_name", hd.t, st.fresh("name", z3.IntSort()))
+    return hd
+
+
+def loop_create_task(ip, coro, name=None, **kw):
+    """loop.create_task(coro): a new task that has not run yet (E6: it does not run before the creating segment ends)"""
+    st = ip.st
+    t = Sym(st.alloc("Task"), TASK)
+    st.put("Task", "done", t.t, z3.BoolVal(False))
+    st.put("Task", "started", t.t, z3.BoolVal(False))
+    st.put("Task", "must_cancel", t.t, z3.BoolVal(False))
+    ip.ctx.events.append(("create_task", t))
+    return t
+
+
+class SpawnMixin:
+    def spawn_globals(self):
+        g = self.tg_globals()
+        g.update(
+            {
+                "TaskHandle": Builtin("TaskHandle", new_handle),
+                "Coroutine": ClassVal("Coroutine"),
+                "get_coro_name": Builtin("get_coro_name", lambda ip, coro, name: Sym(ip.st.fresh("name", z3.IntSort()), lib.STR)),
+                "get_callable_name": Builtin("get_callable_name", lambda ip, func, name: Sym(ip.st.fresh("name", z3.IntSort()), lib.STR)),
+                "call_for_coroutine": Builtin("call_for_coroutine", lambda ip, func, args, **kw: Sym(ip.st.fresh("coro", z3.IntSort()), OBJ)),
+                "_eager_task_factory_code": None,
+                "getattr": Builtin("getattr", lambda ip, o, n, d=None: d),
+                "_AsyncioTaskStatus": ClassVal("_AsyncioTaskStatus", info=CLASSES["TaskStatus"]),
+            }
+        )
+        attrs = dict(lib.GLOBALS["asyncio"].attrs)
+        attrs.update(E._asyncio_ns().attrs)
+        attrs.update({"get_running_loop": Builtin("get_running_loop", lambda ip: S.LOOP), "future_add_to_awaited_by": None})
+        g["asyncio"] = NS("asyncio", attrs)
+        return g
+
+    def spawn_model_getattr(self, ip, obj, attr):
+        if isinstance(obj, S.LoopVal):
+            if attr == "get_task_factory":
+                return Builtin("loop.get_task_factory", lambda ip: None)
+            if attr == "create_task":
+                return Builtin("loop.create_task", loop_create_task)
+        if isinstance(obj, Sym) and obj.ty is OBJ and attr == "close":
+            return Builtin("coro.close", lambda ip: None)
+        if isinstance(obj, Sym) and obj.ty is OBJ and attr == "__class__":
+            return NS("cls", {"__qualname__": "x"})
+        if isinstance(obj, Sym) and obj.ty is THR and attr == "_run_coro":
+            return Builtin("TaskHandle._run_coro", lambda ip: CoroVal(None, None))
+        if isinstance(obj, Sym) and obj.ty is THR and attr == "name":
+            return Sym(ip.st.get(TH, "_name", obj.t), lib.STR)
+        return self.tg_model_getattr(ip, obj, attr)
+
+    def isinstance(self, ip, x, cls):
+        if isinstance(cls, ClassVal) and cls.name == "Coroutine":
+            return Sym(z3.Bool("coro_is_a_coroutine"), BOOL)
+        return NotImplemented
+
+    def registered(self, h, s, t):
+        """what _spawn establishes for the new child t of group s (the precondition of its done callback)"""
+        c = scope(h, s)
+        ts = S.tstate_of(h, t)
+        return z3.And(tasks(h, s).has(t), S.members(h, c).has(t), ts != 0, h.f("TaskState", "cancel_scope", ts) == c, z3.Not(h.f("Task", "done", t)))
+
+
+class CreateTaskUnit(SpawnMixin, TGUnit):
+    method = "create_task"
+    contract = None
+
+    def __init__(self):
+        super().__init__()
+        self.globals = self.spawn_globals()
+
+    def model_getattr(self, ip, obj, attr):
+        return self.spawn_model_getattr(ip, obj, attr)
+
+    def make_args(self, ip):
+        return [Sym(z3.Int("coro"), OBJ)], types.SimpleNamespace()
+
+    def make_kwargs(self, ip):
+        return {"name": None, "context": None}
+
+    def on_exit(self, ip, pre, a, exc, ret):
+        s = a.self
+        post = H(ip.st)
+        nm = "TaskGroup.create_task"
+        ok_state = z3.And(pre.f(G, "_entered", s), S.active(pre, scope(pre, s)))
+        if exc is not None:
+            name = exc.pycls.__name__ if exc.pycls else "?"
+            if name == "RuntimeError":
+                ip.ctx.oblige(f"{nm}/post:refused_unless_entered_and_the_group_scope_is_active", z3.Not(ok_state), "post")
+                ip.ctx.oblige(f"{nm}/post:refused.nothing_started", z3.And(tasks(post, s).card == tasks(pre, s).card, z3.BoolVal(not any(e[0] == "create_task" for e in ip.ctx.events))), "post")
+            else:
+                ip.ctx.oblige(f"{nm}/post:type_error_only_for_a_non_coroutine", z3.And(z3.BoolVal(name == "TypeError"), z3.Not(z3.Bool("coro_is_a_coroutine"))), "post")
+            return
+        created = [e[1] for e in ip.ctx.events if e[0] == "create_task"]
+        cbs = [e for e in ip.ctx.events if e[0] == "add_done_callback"]
+        ip.ctx.oblige(f"{nm}/post:accepted_only_while_entered_and_active", ok_state, "post")
+        ip.ctx.oblige(f"{nm}/post:exactly_one_task_created_with_its_done_callback", z3.BoolVal(len(created) == 1 and len(cbs) == 1), "post")
+        if len(created) == 1:
+            t = created[0].t
+            c = scope(post, s)
+            ts = S.tstate_of(post, t)
+            ip.ctx.oblige(f"{nm}/post:child_is_a_member_of_the_group", z3.And(tasks(post, s).has(t), tasks(post, s).card == tasks(pre, s).card + 1), "post")
+            ip.ctx.oblige(f"{nm}/post:child_is_a_member_of_the_group_scope", S.members(post, c).has(t), "post")
+            ip.ctx.oblige(f"{nm}/post:child_task_state_is_registered_with_the_group_scope", z3.And(ts != 0, post.f("TaskState", "cancel_scope", ts) == c, z3.Not(post.f("Task", "done", t))), "post")
+            ip.ctx.oblige(f"{nm}/post:returns_the_handle_of_an_unfinished_task", z3.BoolVal(isinstance(ret, Sym) and ret.ty is THR), "post")
+
+
+class StartedUnit(SpawnMixin, TGBase, MethodUnit):
+    props = ("C07",)
+    spec = ClassSpec("TaskStatus")
+    method = "started"
+    contract = None
+    trusted = ("E1", "E2")
+
+    def props_of(self, name):
+        return {"C07"}
+
+    def __init__(self):
+        super().__init__()
+        self.globals = self.spawn_globals()
+
+    def model_getattr(self, ip, obj, attr):
+        return self.spawn_model_getattr(ip, obj, attr)
+
+    def assume_state(self, ip):
+        st = ip.st
+        h = H(st)
+        s, cur = self.self_val.t, ip.ctx.cur.t
+        f_ = h.f("TaskStatus", "_future", s)
+        st.assume(z3.And(f_ > 0, st.allocated(f_), S.TS_SINGLETON > 0, S.tstate_of(h, cur) > 0, st.allocated(S.tstate_of(h, cur))))  # the child calling started() is a registered task
+
+    def assert_inv(self, ip, site):
+        pass
+
+    def make_args(self, ip):
+        v = Sym(z3.Int("start_value"), OBJ)
+        self.value = v
+        return [v], types.SimpleNamespace()
+
+    def on_exit(self, ip, pre, a, exc, ret):
+        s = a.self
+        post = H(ip.st)
+        f_ = pre.f("TaskStatus", "_future", s)
+        nm = "_AsyncioTaskStatus.started"
+        st0 = fstate(pre, f_)
+        if exc is not None:
+            ip.ctx.oblige(f"{nm}/post:second_call_is_an_error_unless_the_caller_was_cancelled", z3.And(z3.BoolVal(exc.pycls is RuntimeError), st0 != PENDING, st0 != CANCELLED), "post")
+            return
+        ip.ctx.oblige(f"{nm}/post:accepted_when_pending_or_when_the_caller_was_cancelled", z3.Or(st0 == PENDING, st0 == CANCELLED), "post")
+        ip.ctx.oblige(f"{nm}/post:value_delivered_iff_the_future_was_pending", z3.If(st0 == PENDING, z3.And(fstate(post, f_) == RESULT, post.f("Future", "result", f_) == self.value.t), fstate(post, f_) == st0), "post")
+        ip.ctx.oblige(f"{nm}/post:child_is_reparented", post.f("TaskState", "parent_id", S.tstate_of(pre, a.cur)) == pre.f("TaskStatus", "_parent_id", s), "post")
+
+
+HANDLE_WAIT = K.TaskHandleWait.contract
+HANDLE_WAIT.suspends = True
+HANDLE_WAIT.bind = lambda ip, args, kwargs: types.SimpleNamespace(self=args[0].t, cur=ip.ctx.cur.t)
+
+
+class StartUnit(SpawnMixin, TGUnit):
+    method = "start"
+    contract = None
+    split = (2, 3, 2)
+
+    def __init__(self):
+        super().__init__()
+        g = self.spawn_globals()
+        unit = self
+
+        def make_handle(ip, coro=None, name=None):
+            hd = new_handle(ip, coro, name)
+            ip.ctx.events.append(("handle", hd.t))
+            unit.handles = (hd.t,)
+            return hd
+
+        g["TaskHandle"] = Builtin("TaskHandle", make_handle)
+        self.globals = g
+        self.contracts = dict(TGBase.contracts)
+        self.contracts.update({"TaskHandle.wait": HANDLE_WAIT, "TaskHandle.status": STATUS_PROP, "CancelScope.cancel": S.SCOPE_CALLS["CancelScope.cancel"]})
+
+    def contract_for(self, qualname, ctx):
+        if qualname == "TaskHandle.status":
+            unit = self
+
+            class Wrap:
+                suspends = False
+
+                def apply(self_, ip, f, args, kwargs):
+                    r = STATUS_PROP.apply(ip, f, args, kwargs)
+                    unit.pending_at_failure = r.t == ST_PENDING  # evaluated in the `except BaseException` handler of start()
+                    return r
+
+            return Wrap()
+        return self.contracts.get(qualname)
+
+    def after_suspending_call(self, ip, contract, a, case, exc, ret=None):
+        if contract is HANDLE_WAIT and case.name == "cancelled":
+            self.native_interrupt = True  # the wait runs under CancelScope(shield=True): only a native cancel gets here
+
+    def class_getattr(self, ip, cv, attr):
+        if cv.name == "TaskHandle" and attr == "Status":
+            return StatusNS()
+        return NotImplemented
+
+    def model_getattr(self, ip, obj, attr):
+        if isinstance(obj, StatusNS) and attr in StatusNS.values:
+            return StatusNS.values[attr]
+        if isinstance(obj, Builtin) and obj.name == "TaskHandle" and attr == "Status":
+            return StatusNS()
+        return self.spawn_model_getattr(ip, obj, attr)
+
+    def call_opaque(self, ip, f, args, kwargs):
+        return NotImplemented
+
+    def make_args(self, ip):
+        return [Sym(z3.Int("func"), OBJ)], types.SimpleNamespace()
+
+    def make_kwargs(self, ip):
+        return {"name": None, "return_handle": False}
+
+    def resolve_handle_ctor(self):
+        pass
+
+    def on_entry(self, ip, pre, a):
+        self.handle = None
+        self.future = None
+        self.handles = ()
+        self.pending_at_failure = None
+        self.native_interrupt = False
+
+    def ghost_suspend(self, ip, what, payload):
+        if what == "future" and self.future is None:
+            self.future = payload.t
+            created = [e[1] for e in ip.ctx.events if e[0] == "create_task"]
+            h = H(ip.st)
+            ok = len(created) == 1
+            ip.ctx.oblige("TaskGroup.start@wait/post:exactly_one_child_spawned_and_registered_before_waiting", z3.And(z3.BoolVal(ok), self.registered(h, self.self_val.t, created[0].t) if ok else z3.BoolVal(False)), "post")
+
+    def resume_assumptions(self, ip, what, payload):
+        super().resume_assumptions(ip, what, payload)
+        st = ip.st
+        h, b = H(st), self.before
+        # the handle created by this call: its fields are written by its wrapper coroutine only; a finished handle
+        # stays finished; the readiness future is resolved by started() (a value), by task_done (an exception) or
+        # cancelled with the caller -- never reset
+        for hd in getattr(self, "handles", ()):
+            st.assume(z3.And(h.f(TH, "_finished_event", hd) == b.f(TH, "_finished_event", hd), h.f(TH, "_cancel_scope", hd) == b.f(TH, "_cancel_scope", hd), z3.Implies(h_finished(b, hd), h_finished(h, hd)), E.embedded(h)))
+
+    def on_exit(self, ip, pre, a, exc, ret):
+        s = a.self
+        post = H(ip.st)
+        nm = "TaskGroup.start"
+        ok_state = z3.And(pre.f(G, "_entered", s), S.active(pre, scope(pre, s)))
+        if self.future is None:
+            ip.ctx.oblige(f"{nm}/post:refused_unless_entered_and_the_group_scope_is_active", z3.And(z3.BoolVal(exc is not None and exc.pycls is RuntimeError), z3.Not(ok_state)), "post")
+            return
+        f_ = self.future
+        if exc is None:
+            ip.ctx.oblige(f"{nm}/post:returns_exactly_the_value_passed_to_started", z3.And(fstate(post, f_) == RESULT, ip.term(ret, OBJ) == post.f("Future", "result", f_)), "post")
+            return
+        # start() raises: the child's own exception (future has one), or the caller was interrupted
+        hds = [e[1] for e in ip.ctx.events if e[0] == "handle"]
+        if hds:
+            hd = hds[0]
+            tag = exc.tag if getattr(exc, "tag", None) is not None else z3.BoolVal(False)
+            was_pending = getattr(self, "pending_at_failure", None)
+            if was_pending is not None:
+                # the child had not finished when start() failed: it was cancelled and start() re-raises only after
+                # its wrapper has signalled completion -- unless a *native* cancellation interrupted the shielded wait
+                ip.ctx.oblige(f"{nm}/post:a_pending_child_is_cancelled_and_has_terminated_before_start_re_raises", z3.Implies(was_pending, z3.And(S.cc(post, h_scope(post, hd)), z3.Or(h_finished(post, hd), z3.BoolVal(getattr(self, "native_interrupt", False))))), "post")
+
+
+UNITS += [CreateTaskUnit, StartedUnit, StartUnit]
